@@ -8,7 +8,7 @@ Require Import Webob.Lib.Val Webob.Lib.PyStr Webob.Lib.C12_PyInt Webob.Lib.C12_C
                Webob.Model.C12_AuthCT Webob.Model.C12_Attrs
                Webob.Proofs.C12_pyint Webob.Proofs.C12_headers Webob.Proofs.C12_byterange
                Webob.Proofs.C12_civil Webob.Proofs.C12_dates Webob.Proofs.C12_cachecontrol Webob.Proofs.C12_authct
-               Webob.Proofs.C12_attrs.
+               Webob.Proofs.C12_attrs Webob.Gen.C12_ParamClasses Webob.Proofs.C12_paramclasses.
 Import ListNotations.
 
 (* ===================================================================== group 1: machinery, integers, lists *)
@@ -58,9 +58,9 @@ Theorem C12_int_wire : forall z, (0 <= z)%Z -> all_digits (str_of_Z z) /\ str_of
 Proof. exact str_of_Z_wire. Qed.
 Print Assumptions C12_int_wire.
 
-(* comma lists: a non-empty list of clean elements (non-empty, no comma, no white space) is stored as
+(* comma lists: a list (possibly empty) of clean elements (non-empty, no comma, no white space) is stored as
    ", ".join and read back as the same tuple *)
-Theorem C12_roundtrip_list : forall header l hl, l <> [] -> Forall clean l ->
+Theorem C12_roundtrip_list : forall header l hl, Forall clean l ->
   let '(hl', e) := resp_set conv_list header (PStrs l) hl in
   e = None /\ hg_get (lower header) hl' = Some (join comma_sp l) /\
   resp_get conv_list header hl' = Ok (VList (map VStr l)).
@@ -84,11 +84,11 @@ Theorem C12_single_header : forall header s hl, has_crlf s = false ->
 Proof. exact hg_set_one_pair. Qed.
 Print Assumptions C12_single_header.
 
-(* ... and a value whose serialisation contains CR or LF is refused with ValueError, nothing stored *)
+(* ... and a value whose serialisation contains CR or LF is refused with ValueError and the header list is left
+   exactly as it was (the value is checked before the old line is removed) *)
 Theorem C12_crlf_refused : forall c header v t hl,
   c_serialize c v = Ok (Some t) -> v <> PNone -> has_crlf t = true ->
-  snd (resp_set c header v hl) = Some ValueError /\
-  hg_get (lower header) (fst (resp_set c header v hl)) = None.
+  resp_set c header v hl = (hl, Some ValueError).
 Proof. exact resp_set_crlf. Qed.
 Print Assumptions C12_crlf_refused.
 
@@ -191,7 +191,7 @@ Theorem C12_total_date : forall pd mk v, is_raise (parse_date pd mk v) = false.
 Proof. exact parse_date_total. Qed.
 Print Assumptions C12_total_date.
 
-Theorem C12_total_date_delta : forall now_local pd mk v, is_raise (parse_date_delta now_local pd mk v) = false.
+Theorem C12_total_date_delta : forall now_utc pd mk v, is_raise (parse_date_delta now_utc pd mk v) = false.
 Proof. exact parse_date_delta_total. Qed.
 Print Assumptions C12_total_date_delta.
 
@@ -202,7 +202,7 @@ Proof. intros mk. eexists. eexists. exact (parse_date_unguarded_raises mk). Qed.
 Print Assumptions C12_total_date_unguarded_refuted.
 
 Theorem C12_total_date_delta_unguarded_refuted : forall pd mk,
-  exists now_local v, parse_date_delta_unguarded now_local pd mk v = Raise OverflowError.
+  exists now_utc v, parse_date_delta_unguarded now_utc pd mk v = Raise OverflowError.
 Proof. intros pd mk. eexists. eexists. exact (parse_date_delta_unguarded_raises pd mk). Qed.
 Print Assumptions C12_total_date_delta_unguarded_refuted.
 
@@ -429,7 +429,7 @@ Proof. exact rct_roundtrip. Qed.
 Print Assumptions C12_roundtrip_content_type.
 
 (* Response.content_type_params = d (non-empty).  L = the parameters in the order the setter emits them (sorted by
-   name).  Domain [okp]: alphanumeric ASCII name, value free of double quote and LF; names distinct.  Reading gives
+   name).  Domain [okp]: name = an RFC 7230 token, value free of double quote, backslash and LF; names distinct.  Reading gives
    exactly L and the media type is kept *)
 Theorem C12_roundtrip_content_type_params : forall d hl,
   let L := fold_right insert_kv [] d in
@@ -454,3 +454,19 @@ Theorem C12_request_content_type_keeps_params : forall value env p,
   qct_set (Some value) env = Some (value ++ [59%N] ++ p).
 Proof. exact qct_keeps_params. Qed.
 Print Assumptions C12_request_content_type_keeps_params.
+
+(* ===================================================================== group 5c: the two parameter regexes, regenerated *)
+(* [setter_unquoted], [getter_unquoted], [getter_name]: read off the live compiled _OK_PARAM_RE / _PARAM_RE on every run
+   (coq/Gen/C12_ParamClasses.v).  What the content_type_params setter writes without quotes is within what the
+   getter reads without quotes ... *)
+Theorem C12_param_setter_subset_getter : forallb (fun c => mem_n c getter_unquoted) setter_unquoted = true.
+Proof. exact setter_subset_getter. Qed.
+Print Assumptions C12_param_setter_subset_getter.
+
+(* ... and the classes the model (hence C12_roundtrip_content_type_params) uses are exactly the source's, octet by octet *)
+Theorem C12_param_classes_model :
+  forallb (fun c => Bool.eqb (is_pvalue c) (mem_n c getter_unquoted)
+                    && Bool.eqb (ok_param [c]) (mem_n c setter_unquoted)
+                    && Bool.eqb (is_pkey c) (mem_n c getter_name)) octets = true.
+Proof. exact model_classes_are_source_classes. Qed.
+Print Assumptions C12_param_classes_model.
